@@ -84,3 +84,286 @@ Proof.
   rewrite exit_scan_gen by (rewrite ?FAR_is_max64, ?max64_val, ?two64_val; lia).
   fold q. destruct (N.eqb_spec q (ce + 1 + MAX_SEED_LOOKAHEAD c)) as [E|_]; [rewrite <- E|]; reflexivity.
 Qed.
+
+(* ================= 2. the exit queue as a function of the list of exit epochs ================= *)
+
+Definition nonfar (xs : list N) : list N := filter (fun e => negb (e =? FAR_FUTURE_EPOCH)) xs.
+Definition qmax (a : N) (xs : list N) : N := maxl (nonfar xs) a.
+Definition qcnt (q : N) (xs : list N) : N := countN (fun e => e =? q) xs.
+(* what initiate_validator_exit assigns next, and how many already sit there *)
+Definition qnorm (limit a : N) (xs : list N) : N * N :=
+  let q0 := qmax a xs in
+  let ch := qcnt q0 xs in
+  if limit <=? ch then (q0 + 1, 0) else (q0, ch).
+(* zrnt's running pair after one more ejection *)
+Definition next_queue (limit e ch : N) : N * N := if limit <=? ch + 1 then (e + 1, 0) else (e, ch + 1).
+
+Lemma nonfar_app a b : nonfar (a ++ b) = nonfar a ++ nonfar b.
+Proof. apply filter_app. Qed.
+Lemma nonfar_cons_far b : nonfar (FAR_FUTURE_EPOCH :: b) = nonfar b.
+Proof. reflexivity. Qed.
+Lemma nonfar_cons_nf x b : x <> FAR_FUTURE_EPOCH -> nonfar (x :: b) = x :: nonfar b.
+Proof. intros H. unfold nonfar. cbn [filter]. destruct (N.eqb_spec x FAR_FUTURE_EPOCH); [contradiction|reflexivity]. Qed.
+Lemma nonfar_in x xs : In x xs -> x <> FAR_FUTURE_EPOCH -> In x (nonfar xs).
+Proof. intros Hin Hx. unfold nonfar. rewrite filter_In. split; [exact Hin|]. destruct (N.eqb_spec x FAR_FUTURE_EPOCH); [contradiction|reflexivity]. Qed.
+Lemma qmax_not_far a xs : a <> FAR_FUTURE_EPOCH -> qmax a xs <> FAR_FUTURE_EPOCH.
+Proof.
+  intros Ha. unfold qmax. destruct (maxl_in (nonfar xs) a) as [->|H]; [exact Ha|].
+  unfold nonfar in H at 2. apply filter_In in H. destruct H as [_ H].
+  destruct (N.eqb_spec (maxl (nonfar xs) a) FAR_FUTURE_EPOCH); [discriminate|assumption].
+Qed.
+Lemma qcnt_above q a xs : qmax a xs < q -> q <> FAR_FUTURE_EPOCH -> qcnt q xs = 0.
+Proof.
+  intros Hq Hfar. unfold qcnt. apply countN_zero. intros x Hin.
+  destruct (N.eqb_spec x q) as [->|]; [|reflexivity]. exfalso.
+  pose proof (maxl_ge_in (nonfar xs) a q (nonfar_in _ _ Hin Hfar)). unfold qmax in Hq. lia.
+Qed.
+
+(* one ejection: a validator whose exit epoch was FAR_FUTURE receives the queue end E *)
+Lemma queue_step limit aee a b E C :
+  qnorm limit aee (a ++ FAR_FUTURE_EPOCH :: b) = (E, C) ->
+  E <> FAR_FUTURE_EPOCH -> aee <> FAR_FUTURE_EPOCH ->
+  qnorm limit aee (a ++ E :: b) = next_queue limit E C.
+Proof.
+  intros Hinv HE Ha. unfold qnorm in *.
+  assert (Hq0 : qmax aee (a ++ FAR_FUTURE_EPOCH :: b) = qmax aee (a ++ b)).
+  { unfold qmax. rewrite !nonfar_app, nonfar_cons_far. reflexivity. }
+  assert (Hq1 : qmax aee (a ++ E :: b) = N.max E (qmax aee (a ++ b))).
+  { unfold qmax. rewrite !nonfar_app, nonfar_cons_nf by exact HE. rewrite maxl_mid. reflexivity. }
+  rewrite Hq0 in Hinv. rewrite Hq1. set (q0 := qmax aee (a ++ b)) in *.
+  pose proof (qmax_not_far aee (a ++ b) Ha) as Hq0far. fold q0 in Hq0far.
+  assert (Hc0 : qcnt q0 (a ++ FAR_FUTURE_EPOCH :: b) = qcnt q0 (a ++ b)).
+  { unfold qcnt. rewrite !countN_app, countN_cons.
+    destruct (N.eqb_spec FAR_FUTURE_EPOCH q0); [congruence|lia]. }
+  rewrite Hc0 in Hinv.
+  assert (Hc1 : forall q, qcnt q (a ++ E :: b) = qcnt q (a ++ b) + (if E =? q then 1 else 0)).
+  { intros q. unfold qcnt. rewrite !countN_app, countN_cons. lia. }
+  rewrite Hc1. unfold next_queue.
+  destruct (N.leb_spec limit (qcnt q0 (a ++ b))) as [Hle|Hgt]; inversion Hinv; subst E C; clear Hinv.
+  - replace (N.max (q0 + 1) q0) with (q0 + 1) by lia. rewrite N.eqb_refl.
+    rewrite (qcnt_above (q0 + 1) aee (a ++ b)) by (fold q0; try lia; exact HE). reflexivity.
+  - replace (N.max q0 q0) with q0 by lia. rewrite N.eqb_refl. reflexivity.
+Qed.
+
+Lemma qnorm_fst_ge limit aee xs : aee <= fst (qnorm limit aee xs).
+Proof.
+  unfold qnorm. pose proof (maxl_ge_d (nonfar xs) aee) as H. fold (qmax aee xs) in H.
+  destruct (limit <=? _); cbn [fst]; lia.
+Qed.
+Lemma qnorm_snd_le limit aee xs : snd (qnorm limit aee xs) <= N.of_nat (length xs).
+Proof.
+  unfold qnorm. destruct (limit <=? _); cbn [snd]; [lia|]. apply countN_le_length.
+Qed.
+Lemma next_queue_fst limit e ch : e <= fst (next_queue limit e ch) <= e + 1.
+Proof. unfold next_queue. destruct (limit <=? _); cbn [fst]; lia. Qed.
+
+(* ================= 3. the spec's registry loop on the validator list ================= *)
+Definition with_validators (st : BeaconState) (vs : list Validator) : BeaconState := st <| validators := vs |>.
+Lemma with_validators_id st : with_validators st (validators st) = st.
+Proof. destruct st; reflexivity. Qed.
+
+Section SpecOnLists.
+  Variable E : Env.
+  Variable f : fork.
+  Let c := cfg E.
+
+  Definition aee (ce : N) : N := ce + 1 + MAX_SEED_LOOKAHEAD c.
+  Definition active_count (vals : list Validator) (ce : N) : N := countN (fun v => is_active_validator v ce) vals.
+  Definition churn_limit_of (vals : list Validator) (ce : N) : N :=
+    N.max (MIN_PER_EPOCH_CHURN_LIMIT c) (active_count vals ce / CHURN_LIMIT_QUOTIENT c).
+  Definition set_exit (q : N) (v : Validator) : Validator :=
+    v <| v_exit_epoch := q |> <| v_withdrawable_epoch := q + MIN_VALIDATOR_WITHDRAWABILITY_DELAY c |>.
+  Definition set_elig (e : N) (v : Validator) : Validator := v <| v_activation_eligibility_epoch := e |>.
+  Definition set_act (e : N) (v : Validator) : Validator := v <| v_activation_epoch := e |>.
+  Definition exit_target (vals : list Validator) (ce : N) : N :=
+    fst (qnorm (churn_limit_of vals ce) (aee ce) (map v_exit_epoch vals)).
+
+  Definition ive_vals (vals : list Validator) (ce index : N) : option (list Validator) :=
+    match nthN vals index with
+    | None => None
+    | Some v => if negb (v_exit_epoch v =? FAR_FUTURE_EPOCH) then Some vals
+                else Some (updN vals index (set_exit (exit_target vals ce)))
+    end.
+
+  Lemma active_indices_length st epoch :
+    N.of_nat (length (get_active_validator_indices st epoch)) = active_count (validators st) epoch.
+  Proof.
+    unfold get_active_validator_indices, active_count, countN. rewrite map_length, combine_indices_indexed.
+    unfold indexed. rewrite (filter_snd_indexed_length (fun v => is_active_validator v epoch)). reflexivity.
+  Qed.
+  Lemma churn_limit_eq st : get_validator_churn_limit E st = churn_limit_of (validators st) (get_current_epoch E st).
+  Proof. unfold get_validator_churn_limit, churn_limit_of. rewrite active_indices_length. reflexivity. Qed.
+
+  Lemma ive_state st i :
+    initiate_validator_exit E st i = option_map (with_validators st) (ive_vals (validators st) (get_current_epoch E st) i).
+  Proof.
+    unfold initiate_validator_exit, ive_vals. destruct (nthN (validators st) i) as [v|]; [|reflexivity].
+    destruct (negb (v_exit_epoch v =? FAR_FUTURE_EPOCH)); cbn [option_map].
+    - rewrite with_validators_id. reflexivity.
+    - rewrite churn_limit_eq. unfold exit_target, qnorm, qmax, qcnt, nonfar, aee, compute_activation_exit_epoch.
+      fold c. rewrite countN_map. unfold countN.
+      destruct (_ <=? _); reflexivity.
+  Qed.
+End SpecOnLists.
+
+Section SpecLoop.
+  Variable E : Env.
+  Variable f : fork.
+  Let c := cfg E.
+
+  Definition reg_step_vals (ce : N) (acc : option (list Validator)) (i : N) : option (list Validator) :=
+    match acc with
+    | None => None
+    | Some vals =>
+        match nthN vals i with
+        | None => None
+        | Some v =>
+            let vals1 := if is_eligible_for_activation_queue E v then updN vals i (set_elig (ce + 1)) else vals in
+            if is_active_validator v ce && (v_effective_balance v <=? EJECTION_BALANCE c)
+            then ive_vals E vals1 ce i else Some vals1
+        end
+    end.
+
+  (* the loop body of process_registry_updates, verbatim *)
+  Definition spec_reg_step (ce : N) (acc : option BeaconState) (i : N) : option BeaconState :=
+    st <- acc ;;
+    v <- nthN (validators st) i ;;
+    let st := if is_eligible_for_activation_queue E v
+              then st <| validators := updN (validators st) i (fun v => v <| v_activation_eligibility_epoch := ce + 1 |>) |>
+              else st in
+    if is_active_validator v ce && (v_effective_balance v <=? EJECTION_BALANCE c)
+    then initiate_validator_exit E st i else Some st.
+
+  Lemma reg_loop_state ce : forall l st,
+    get_current_epoch E st = ce ->
+    fold_left (spec_reg_step ce) l (Some st) =
+    option_map (with_validators st) (fold_left (reg_step_vals ce) l (Some (validators st))).
+  Proof.
+    induction l as [|i l IH]; intros st Hce.
+    - cbn [fold_left option_map]. rewrite with_validators_id. reflexivity.
+    - cbn [fold_left]. unfold spec_reg_step at 2, reg_step_vals at 2.
+      destruct (nthN (validators st) i) as [v|].
+      2:{ rewrite !fold_left_none by reflexivity. reflexivity. }
+      destruct (is_eligible_for_activation_queue E v);
+      destruct (is_active_validator v ce && (v_effective_balance v <=? EJECTION_BALANCE c)).
+      + rewrite ive_state. change (get_current_epoch E _) with (get_current_epoch E st). rewrite Hce.
+        change (validators (st <| validators := ?x |>)) with x.
+        destruct (ive_vals E _ ce i) as [vs|]; cbn [option_map].
+        * rewrite (IH (with_validators _ vs)) by exact Hce. reflexivity.
+        * rewrite !fold_left_none by reflexivity. reflexivity.
+      + rewrite (IH (st <| validators := _ |>)) by exact Hce. reflexivity.
+      + rewrite ive_state. rewrite Hce.
+        destruct (ive_vals E _ ce i) as [vs|]; cbn [option_map].
+        * rewrite (IH (with_validators _ vs)) by exact Hce. reflexivity.
+        * rewrite !fold_left_none by reflexivity. reflexivity.
+      + rewrite IH by exact Hce. reflexivity.
+  Qed.
+End SpecLoop.
+
+(* ================= 4. structural form of the first part (eligibility + ejections) ================= *)
+Section Struct.
+  Variable E : Env.
+  Notation c := (cfg E).
+
+  Definition elig_cond (fl : FlatValidator) : bool :=
+    (fl_activation_eligibility_epoch fl =? FAR_FUTURE_EPOCH) && (fl_effective_balance fl =? MAX_EFFECTIVE_BALANCE c).
+  Definition eject_cond (ce : N) (fl : FlatValidator) : bool :=
+    fl_is_active fl ce && (fl_effective_balance fl <=? EJECTION_BALANCE c) && (fl_exit_epoch fl =? FAR_FUTURE_EPOCH).
+
+  Fixpoint eject_struct (ce limit : N) (flats : list FlatValidator) (vals : list Validator) (e ch : N) : list Validator :=
+    match flats, vals with
+    | fl :: flats', v :: vals' =>
+        if eject_cond ce fl
+        then set_exit E e v :: eject_struct ce limit flats' vals' (fst (next_queue limit e ch)) (snd (next_queue limit e ch))
+        else v :: eject_struct ce limit flats' vals' e ch
+    | _, _ => vals
+    end.
+  Fixpoint elig_struct (ce : N) (flats : list FlatValidator) (vals : list Validator) : list Validator :=
+    match flats, vals with
+    | fl :: flats', v :: vals' => (if elig_cond fl then set_elig (ce + 1) v else v) :: elig_struct ce flats' vals'
+    | _, _ => vals
+    end.
+
+  Lemma elig_cond_flatten v : elig_cond (flatten v) = is_eligible_for_activation_queue E v.
+  Proof. reflexivity. Qed.
+  Lemma is_active_flatten v ce : fl_is_active (flatten v) ce = is_active_validator v ce.
+  Proof. reflexivity. Qed.
+
+  Lemma spec_loop_struct ce limit : forall vals pre e ch,
+    churn_limit_of E (pre ++ vals) ce = limit ->
+    qnorm limit (aee E ce) (map v_exit_epoch (pre ++ vals)) = (e, ch) ->
+    aee E ce <= e -> e + N.of_nat (length vals) < max64 ->
+    fold_left (reg_step_vals E ce) (seqN (N.of_nat (length pre)) (length vals)) (Some (pre ++ vals)) =
+    Some (pre ++ elig_struct ce (map flatten vals) (eject_struct ce limit (map flatten vals) vals e ch)).
+  Proof.
+    induction vals as [|v vals IH]; intros pre e ch Hlim Hq Hae Hb.
+    - reflexivity.
+    - cbn [length seqN fold_left map eject_struct elig_struct]. unfold reg_step_vals at 2.
+      rewrite nthN_app. cbn [length] in Hb.
+      assert (Haee_nf : aee E ce <> FAR_FUTURE_EPOCH) by (rewrite FAR_is_max64; lia).
+      assert (He_nf : e <> FAR_FUTURE_EPOCH) by (rewrite FAR_is_max64; lia).
+      (* the eligibility update of validator |pre| *)
+      set (v1 := if is_eligible_for_activation_queue E v then set_elig (ce + 1) v else v).
+      assert (Hvals1 : (if is_eligible_for_activation_queue E v
+                        then updN (pre ++ v :: vals) (N.of_nat (length pre)) (set_elig (ce + 1))
+                        else pre ++ v :: vals) = pre ++ v1 :: vals).
+      { unfold v1. destruct (is_eligible_for_activation_queue E v); [apply updN_app|reflexivity]. }
+      rewrite Hvals1.
+      assert (Hex1 : v_exit_epoch v1 = v_exit_epoch v) by (unfold v1; destruct (is_eligible_for_activation_queue E v); reflexivity).
+      assert (Hact1 : forall x, is_active_validator v1 x = is_active_validator v x)
+        by (intros x; unfold v1; destruct (is_eligible_for_activation_queue E v); reflexivity).
+      assert (Hexits1 : map v_exit_epoch (pre ++ v1 :: vals) = map v_exit_epoch (pre ++ v :: vals)).
+      { rewrite !map_app. cbn [map]. rewrite Hex1. reflexivity. }
+      assert (Hlim1 : churn_limit_of E (pre ++ v1 :: vals) ce = limit).
+      { rewrite <- Hlim. unfold churn_limit_of, active_count. rewrite !countN_app, !countN_cons, Hact1. reflexivity. }
+      replace (N.of_nat (length pre) + 1) with (N.of_nat (length (pre ++ [v1]))) by (rewrite app_length; cbn [length]; lia).
+      unfold eject_cond. rewrite is_active_flatten. cbn [fl_effective_balance fl_exit_epoch flatten].
+      rewrite elig_cond_flatten. fold v1.
+      destruct (is_active_validator v ce && (v_effective_balance v <=? EJECTION_BALANCE c)) eqn:Hcond; cbn [andb].
+      + (* initiate_validator_exit *)
+        unfold ive_vals. rewrite nthN_app. rewrite Hex1.
+        destruct (N.eqb_spec (v_exit_epoch v) FAR_FUTURE_EPOCH) as [Hfar|Hnf]; cbn [negb].
+        * (* ejected: receives the queue end *)
+          assert (Htarget : exit_target E (pre ++ v1 :: vals) ce = e).
+          { unfold exit_target. rewrite Hlim1, Hexits1, Hq. reflexivity. }
+          rewrite Htarget, updN_app.
+          replace (pre ++ set_exit E e v1 :: vals) with ((pre ++ [set_exit E e v1]) ++ vals) by (rewrite <- app_assoc; reflexivity).
+          replace (length (pre ++ [v1])) with (length (pre ++ [set_exit E e v1])) by (rewrite !app_length; reflexivity).
+          destruct (next_queue limit e ch) as [e' ch'] eqn:Hnq. cbn [fst snd].
+          pose proof (next_queue_fst limit e ch) as Hfst. rewrite Hnq in Hfst. cbn [fst] in Hfst.
+          apply andb_prop in Hcond. destruct Hcond as [Hactive _].
+          rewrite (IH _ e' ch').
+          -- rewrite <- app_assoc. cbn [app]. f_equal. f_equal. f_equal.
+             unfold v1. destruct (is_eligible_for_activation_queue E v); reflexivity.
+          -- rewrite <- app_assoc. cbn [app]. rewrite <- Hlim.
+             unfold churn_limit_of, active_count. rewrite !countN_app, !countN_cons.
+             replace (is_active_validator (set_exit E e v1) ce) with true; [rewrite Hactive; reflexivity|].
+             unfold is_active_validator in *. cbn [set_exit v_activation_epoch v_exit_epoch set]. 
+             change (v_activation_epoch (set_exit E e v1)) with (v_activation_epoch v1).
+             change (v_exit_epoch (set_exit E e v1)) with e.
+             replace (v_activation_epoch v1) with (v_activation_epoch v) by (unfold v1; destruct (is_eligible_for_activation_queue E v); reflexivity).
+             apply andb_prop in Hactive. destruct Hactive as [Ha1 _]. rewrite Ha1. cbn [andb].
+             unfold aee in Hae. symmetry. apply N.ltb_lt. lia.
+          -- rewrite <- app_assoc. cbn [app]. rewrite map_app. cbn [map].
+             change (v_exit_epoch (set_exit E e v1)) with e.
+             rewrite <- Hnq. apply queue_step; try assumption.
+             rewrite <- Hq. rewrite map_app. cbn [map]. rewrite Hfar. reflexivity.
+          -- lia.
+          -- lia.
+        * (* already exiting: initiate_validator_exit is a no-op, and zrnt does not eject *)
+          replace (pre ++ v1 :: vals) with ((pre ++ [v1]) ++ vals) by (rewrite <- app_assoc; reflexivity).
+          rewrite (IH _ e ch).
+          -- rewrite <- app_assoc. reflexivity.
+          -- rewrite <- app_assoc. exact Hlim1.
+          -- rewrite <- app_assoc. cbn [app]. rewrite Hexits1. exact Hq.
+          -- exact Hae.
+          -- lia.
+      + replace (pre ++ v1 :: vals) with ((pre ++ [v1]) ++ vals) by (rewrite <- app_assoc; reflexivity).
+        rewrite (IH _ e ch).
+        -- rewrite <- app_assoc. reflexivity.
+        -- rewrite <- app_assoc. exact Hlim1.
+        -- rewrite <- app_assoc. cbn [app]. rewrite Hexits1. exact Hq.
+        -- exact Hae.
+        -- lia.
+  Qed.
+End Struct.
